@@ -738,6 +738,14 @@ func runC10(c *Check, w *World) {
 		}
 	}
 	c.Count("functions_in_scope", len(x.scope))
+	{
+		var ms []*ssa.Function
+		for _, f := range w.ModuleFuncs(OtpPath) {
+			ms = append(ms, f)
+		}
+		sortFuncs(ms)
+		ruleNoFormatRecursion(c, w, "recursion", ms)
+	}
 	// HMAC output length: every Sum call in scope is traced to its hash constructors — a table of constructors
 	// indexed by the algorithm, or hmac.New applied to one of several hash constructors
 	{
@@ -1064,6 +1072,82 @@ func (x *c10ctx) checkAssertion(f *ssa.Function, ta *ssa.TypeAssert) {
 					okAll = false
 					c.Bad("assertion", FuncName(g), "put-type:"+pool, "a value of type "+mi.X.Type().String()+" is put into a pool whose users assert "+ta.AssertedType.String(), w.InstrPos(in))
 				}
+				// … and never a nil pointer of that type: a typed nil is stored like any other value, the assertion of
+				// the next user succeeds and its first use dereferences nil
+				if _, isPtr := mi.X.Type().Underlying().(*types.Pointer); isPtr {
+					vt := tb.Of(mi.X)
+					if par := g.Parent(); par != nil {
+						// a Put inside a (deferred) closure: what it captured, as the enclosing function leaves it
+						EachInstr(par, func(pin ssa.Instruction) {
+							if mc, isMC := pin.(*ssa.MakeClosure); isMC && mc.Fn == ssa.Value(g) {
+								var free []*Term
+								for _, b := range mc.Bindings {
+									free = append(free, tb.Of(b))
+								}
+								vt = tb.Val(mi.X, &Env{Fn: g, Free: free})
+							}
+						})
+					}
+					// a captured variable that is still unset when the closure is deferred and that some exit can be
+					// reached from there without a store to it is nil at the Put
+					if par := g.Parent(); par != nil {
+						EachInstr(par, func(pin ssa.Instruction) {
+							df, isDefer := pin.(*ssa.Defer)
+							if !isDefer {
+								return
+							}
+							mc, isMC := df.Call.Value.(*ssa.MakeClosure)
+							if !isMC || mc.Fn != ssa.Value(g) {
+								return
+							}
+							ld, isLd := mi.X.(*ssa.UnOp)
+							if !isLd {
+								return
+							}
+							fv, isFV := ld.X.(*ssa.FreeVar)
+							if !isFV {
+								return
+							}
+							for k, fvk := range g.FreeVars {
+								if fvk != fv || k >= len(mc.Bindings) {
+									continue
+								}
+								al, isAl := mc.Bindings[k].(*ssa.Alloc)
+								if !isAl || al.Referrers() == nil {
+									continue
+								}
+								killers := map[ssa.Instruction]bool{}
+								storedBefore := false
+								for _, r := range *al.Referrers() {
+									if st, isSt := r.(*ssa.Store); isSt && st.Addr == ssa.Value(al) {
+										if kc, isK := st.Val.(*ssa.Const); isK && kc.Value == nil {
+											continue // a store of nil does not help
+										}
+										killers[st] = true
+										if dominatesInstr(st, df) {
+											storedBefore = true
+										}
+									}
+								}
+								if storedBefore {
+									continue
+								}
+								for _, ret := range Returns(par) {
+									if reachesAvoiding(df, ret, killers) {
+										vt = mkPhi([]*Term{vt, mk("zero", "unset "+al.Name())})
+									}
+								}
+							}
+						})
+					}
+					for _, a := range vt.Alts() {
+						if a.Op == "zero" || (a.IsConst() && a.Sym == "nil") {
+							okAll = false
+							c.Bad("assertion", FuncName(g), "put-nil:"+pool, "a nil "+mi.X.Type().String()+" can be put into the pool (the variable is still unset on some path to this Put): the next Get hands it to a user that dereferences it", w.InstrPos(in))
+							break
+						}
+					}
+				}
 			} else {
 				okAll = false
 				c.Unk("assertion", FuncName(g), "put-type:"+pool, "a value of unknown dynamic type is put into the pool", w.InstrPos(in))
@@ -1221,7 +1305,69 @@ func init() {
 		trusted:  []string{"the Go compiler's bounds-check elimination (prove pass)", "documented preconditions of the standard library functions used"},
 		assume:   []string{"nil Suite values and user-defined Suite implementations are excluded by the property", "LeftPadHex width is within 0..2^20 (property)", "TimeCounterFunc is not replaced and not called directly with period 0"},
 		quick:    []Config{CfgNative, CfgWasm},
-		thorough: []Config{CfgNative, Cfg386, CfgWasm},
+		thorough: []Config{CfgNative, CfgWasm, Cfg386},
 		run:      runC10,
 	})
+}
+
+// ruleNoFormatRecursion: a String() / Error() / Format / GoString method that hands its own receiver — or a value
+// whose method set still contains this very method, such as a struct that embeds the receiver's type — to a fmt
+// formatting function is called back by fmt for that argument: unbounded recursion, a stack overflow no recover()
+// catches. (go vet reports only the receiver itself.)
+func ruleNoFormatRecursion(c *Check, w *World, rule string, fns []*ssa.Function) {
+	n := 0
+	for _, f := range fns {
+		recv := f.Signature.Recv()
+		if recv == nil || f.Blocks == nil {
+			continue
+		}
+		name := f.Name()
+		if name != "String" && name != "Error" && name != "GoString" && name != "Format" {
+			continue
+		}
+		self, _ := f.Object().(*types.Func)
+		if self == nil {
+			continue
+		}
+		n++
+		bad := ""
+		var at ssa.Instruction
+		EachInstr(f, func(in ssa.Instruction) {
+			ci, ok := in.(ssa.CallInstruction)
+			if !ok || !strings.HasPrefix(CalleeName(ci.Common()), "fmt.") {
+				return
+			}
+			var vals []ssa.Value
+			for _, a := range ci.Common().Args {
+				vals = append(vals, a)
+				if sl, ok := a.(*ssa.Slice); ok {
+					vals = append(vals, variadicElems(sl)...)
+				}
+			}
+			for _, v := range vals {
+				mi, ok := v.(*ssa.MakeInterface)
+				if !ok {
+					continue
+				}
+				t := mi.X.Type()
+				for _, tt := range []types.Type{t, types.NewPointer(t)} {
+					ms := types.NewMethodSet(tt)
+					for i := 0; i < ms.Len(); i++ {
+						if ms.At(i).Obj() == types.Object(self) && tt == t {
+							bad, at = "a value of type "+t.String(), in
+						}
+					}
+				}
+			}
+		})
+		c.Decide(bad == "", rule, FuncName(f), "format-recursion", "the method formats nothing whose method set contains the method itself", "the method hands "+bad+" to a fmt function: fmt calls this method again for it, without end (stack overflow; not recoverable)", func() string {
+			if at != nil {
+				return w.InstrPos(at)
+			}
+			return w.Pos(f.Pos())
+		}())
+	}
+	if n == 0 {
+		c.OK(rule, "otp", "format-recursion", "no String/Error/Format methods among the functions examined", "")
+	}
 }
